@@ -30,3 +30,31 @@ Theorem C08_slave_handlers_keep_non_slave : forall p d,
   (forall h w r, keeps_non_slave (handle_delay_resp p d h w r) p) /\
   (forall id ts, keeps_non_slave (handle_delay_timestamp p d id ts) p).
 Proof. exact non_slave_handlers. Qed.
+
+(** * Every reachable state, every event sequence: at most one port of the
+    instance is in the slave state, and a master-only port never is. *)
+From SV Require Import Port.InvRun.
+Theorem C08_at_most_one_slave_always : forall s es i o i',
+  setup_valid s -> Forall event_valid es -> init s = Ok (i, o) -> run_state i es = Some i' ->
+  (nslaves (i_ports i') <= 1)%nat /\
+  (forall p, In p (i_ports i') -> pc_master_only (p_config p) = true -> is_slave (p_state p) = false).
+Proof. exact reachable_roles_from_init. Qed.
+
+(** An instance configured slave-only from the start never has a master port
+    (for as long as slave-only is left alone). *)
+Theorem C08_slave_only_from_start_never_master : forall s es i o i',
+  setup_valid s -> ic_slave_only (su_config s) = true ->
+  Forall event_valid es -> Forall (fun e => ~ sets_slave_only e) es ->
+  init s = Ok (i, o) -> run_state i es = Some i' ->
+  slave_only_of i' = true /\ no_master (i_ports i').
+Proof. exact slave_only_from_start. Qed.
+
+(** After slave-only is switched on at run time no port is master once the
+    next BMCA run has completed, and none becomes master afterwards (until
+    slave-only is switched again). *)
+Theorem C08_slave_only_switch_on : forall i i1 o1 es i2,
+  inst_inv i -> slave_only_of i = true -> step i EvBmca = Ok (i1, o1) ->
+  Forall event_valid es -> Forall (fun e => ~ turns_on_slave_only e) es ->
+  run_state i1 es = Some i2 ->
+  no_master (i_ports i1) /\ so_inv i2.
+Proof. exact slave_only_switch_on. Qed.
